@@ -2,7 +2,7 @@
 # usage: tools/run_seeded.sh <property id> <patch.diff> [extra check ids...]
 # Applies a seeded change to /repo, runs the quick check(s), undoes the change. Prints one line per check.
 set -u
-id=$1; patch=$2; shift 2
+id=$1; patch=$(readlink -f $2); shift 2
 checks="$id $*"
 cd /verif
 if ! git -C /repo diff --quiet; then echo "repo dirty, refusing"; exit 2; fi
